@@ -82,6 +82,7 @@ REQUIRED_THEOREMS = ["block_opt_roundtrip", "blocks_tile_body", "rblock_represen
                      "nack_shows_application_token", "nack_token_of_its_transfer", "application_token_left_alone",
                      "app_token_only_block2_composed", "raw_token_only_after_release", "handler_token_step", "wire_token_roundtrip",
                      "never_wrong_body_block2_composed_tokens",
+                     "app_token_only_block1_composed", "raw_token_only_after_release_block1", "handler_token_step_block1",
                      "at_most_once_block1_run", "block1_replay_without_block0_never_delivers",
                      "block1_replayed_last_block_never_delivers", "at_most_once_block2_run",
                      "block2_replay_without_block0_never_delivers", "block2_replays_after_completion_dropped",
@@ -110,7 +111,11 @@ RULE = ("Layer A: block option values (all single bytes, random 0-3 byte values,
         "coap_handle_response_get_block / coap_block_new_lg_crcv / coap_send / coap_block_delete_lg_crcv with TOKENS (crcvt: responses under the "
         "application's token, the token libcoap put on its last request or a token never issued, `sent` NULL / the application's request / the "
         "follow-up request, copies after the lg_crcv completed, timed out or was replaced, tx_token at the 2^44 / 2^64 wraps; the token the "
-        "handler sees, the token of every request sent and the whole lg_crcv list are compared after every item); Layer B: whole transfers "
+        "handler sees, the token of every request sent and the whole lg_crcv list are compared after every item); the client's Block1 path "
+        "with tokens through the whole handle_response() chain (xmit1t: real coap_add_data_large_request + coap_send + "
+        "coap_handle_response_send_block + coap_handle_response_get_block, 2.31s / final answers / errors under the last request's, the "
+        "application's or a foreign token, lg_xmit / lg_crcv timing out in mid-transfer, repeated PUTs, CON and NON, single-message bodies; "
+        "tokens, count, state-token base, lg_crcv link and both list lengths compared after every item); Layer B: whole transfers "
         "(PUT/Block1 with libcoap's or the application's Request-Tag incl. EMPTY, GET/Block2, hand-built Block1 without Size1) "
         "between a real client and server context under drop/duplicate schedules over the first 4-13 datagrams, MTU 64..1500, SZX asked "
         "by either side, CON/NON, single-body/per-block, two concurrent transfers (also to one resource, told apart by Request-Tag only); "
